@@ -103,6 +103,9 @@ def parseFault (s : String) : Option (Nat × Fault) :=
   | [i, k] => do
     let idx ← i.toNat?
     if k.startsWith "cut" then pure (idx, .cut (← (k.drop 3).toString.toNat?))
+    -- the frame stops at the same byte but the connection stays open: the read deadline ends the round instead of EOF —
+    -- the complete records are delivered, the Conn is closed, `run` reconnects
+    else if k.startsWith "stall" then pure (idx, .cut (← (k.drop 5).toString.toNat?))
     -- OffsetOutOfRange followed by an unanswered ListOffsets: readOffsets fails at its deadline → conn.Close(); break readLoop
     else if k == "err1h" then pure (idx, .hang)
     else if k.startsWith "err" then pure (idx, .err (← (k.drop 3).toString.toNat?))
@@ -132,10 +135,14 @@ def parseStream (s : String) : Option (List (List Rec)) :=
     | [] => some (acc ++ [cur])
     | e :: rest =>
       if e == "|" then go rest [] (acc ++ [cur])
+      else if e.startsWith "E" then go rest cur acc      -- an error handed to the application: see `streamHasError`
       else match e.splitOn ":" with
         | [o, t] => do go rest (cur ++ [((← o.toInt?), (← t.toNat?))]) acc
         | _ => none
   go (s.splitOn ",") [] []
+
+/-- FetchMessage returned an error (`E<class>` in the stream): none of the scripted faults may reach the application -/
+def streamHasError (s : String) : Bool := (s.splitOn ",").any (·.startsWith "E")
 
 def strictlyIncreasing : List Rec → Bool
   | a :: b :: rest => a.1 < b.1 && strictlyIncreasing (b :: rest)
@@ -657,7 +664,8 @@ def step (line : String) : String :=
             else if startOff < logFirst then logFirst else startOff
           let positions := startPos :: sets.map (·.2)
           let lens := (sets.zip (0 :: sets.map (·.1))).map fun (a, b) => a.1 - b
-          let holds := readerHolds all final positions lens segs iout && iclose == "ok"
+          let holds := readerHolds all final positions lens segs iout && iclose == "ok" &&
+            !streamHasError ((field iw "d").getD "")
           if sets.isEmpty then
             let br : RBroker := { ver := ver.toNat, items := withFirst, hwm := hwm, budgets := budgets, faults := faults,
                                   trunc := trunc, orig := withFirst }
